@@ -18,6 +18,7 @@ Local Open Scope list_scope.
 Record line_obs := mk_lo {
   lo_word : string;            (* upper-cased command word; "UID X" for UID sub-commands *)
   lo_ok : bool;                (* the own-tag completion is OK *)
+  lo_bad : bool;               (* the own-tag completion is BAD: the line was not a well-formed command *)
   lo_own : nat;                (* number of tagged completions carrying the line's tag *)
   lo_foreign : nat;            (* number of tagged completions carrying another tag *)
   lo_data : bool;              (* untagged mailbox data in the response *)
@@ -67,6 +68,13 @@ Definition check_line (st : rstate) (o : line_obs) : list verdict :=
   ++ (if negb (Nat.eqb (lo_backend o) 0) && negb (in_words w login_words) then [VPlainCredentials] else [])
   ++ (if Nat.eqb (lo_own o) 1 && Nat.eqb (lo_foreign o) 0 then [] else [VTagged])
   ++ (if forallb (allowed_b st o) (lo_changed o ++ lo_revealed o) then [] else [VForeignStore])
+  ++ (if is_select w && lo_ok o then
+        match lo_target o with
+        | RoleStore r => if existsb (Nat.eqb r) (lo_roles o) then [] else [VForeignStore]  (* selected a role mailbox without being assigned *)
+        | Personal u => if Nat.eqb u (r_user st) then [] else [VForeignStore]
+        | SharedStore => [VForeignStore]
+        end
+      else [])
   ++ (if in_words w sel_words && r_sel st &&
          negb (forallb (fun s => store_eqb s SharedStore || store_eqb s (r_origin st)) (lo_changed o ++ lo_revealed o))
       then [VWrongMailboxStore] else []).
@@ -77,6 +85,7 @@ Definition next_state (st : rstate) (o : line_obs) (handshake : bool) : rstate :
   else if is_select w then
     if negb (r_auth st) then st
     else if lo_ok o then mk_r (r_tls st) (r_auth st) true (r_user st) (lo_target o) (r_login_roles st)
+    else if lo_bad o then st      (* "SELECT" without a mailbox name is a syntax error, not a failed selection *)
     else mk_r (r_tls st) (r_auth st) false (r_user st) (r_origin st) (r_login_roles st)
   else if is_unselect w && lo_ok o then mk_r (r_tls st) (r_auth st) false (r_user st) (r_origin st) (r_login_roles st)
   else if String.eqb w "STARTTLS" && lo_ok o && handshake then mk_r true false false 0 SharedStore []
